@@ -243,7 +243,8 @@ def c18(tier, seed, only=None):
     big_names = {s.name for s in gen.f2_all(tier) + gen.f4_all(tier) + gen.f5_all(tier) if gen.is_big(s)}
     for j in jobs:
         j["cfg"]["render"] = True
-        if j["cfg"].get("rerun") and (tier != "quick" or j["scn"]["name"] not in big_names):
+        if j["cfg"].get("rerun") and (tier != "quick" or j["scn"]["name"] not in big_names
+                                       or "-j1-" in j["scn"]["name"]):
             j["cfg"]["rerun_with_inflight"] = True
             j["cfg"]["dev"] = j["cfg"]["dev"] + 1
     jobs = _filter(jobs, only)
@@ -460,6 +461,9 @@ def c17(tier, seed, only=None):
             cfg2["rerun"] = 2
             cfg2["dev"] = 4 if tier == "quick" else 5
             jobs.append(job(s, cfg2, mons))
+        if s.name in ("F2/seq2", "F2/seq3", "F2/decide", "F2/handler-remediate-then-next"):
+            # sequences: explicit reruns of any execution (also succeeded ones), twice
+            jobs.append(job(s, dict(rerun=2, rerun_mode="tasks", horizon=70), mons))
         if not gen.is_big(s):
             # inadmissible-request probes also in paused / pausing / canceling states
             jobs.append(job(s, dict(rerun=1, rerun_mode="failed", pause=1, resume=1, cancel=1, horizon=70,
